@@ -41,19 +41,98 @@ def insertS (x : String) : List String → List String
   | y :: ys => if x ≤ y then x :: y :: ys else y :: insertS x ys
 def sortS (l : List String) : List String := l.foldr insertS []
 
-def showStep (o : Node → Ev) : String :=
-  let evs := sortS (allNodes.flatMap fun n => showEv n (o n))
+def showStepOn (nodes : List Node) (o : Node → Ev) : String :=
+  let evs := sortS (nodes.flatMap fun n => showEv n (o n))
   if evs.isEmpty then "-" else ",".intercalate evs
 
-def digest (s : St) : String :=
-  let nodes := allNodes
+def showStep (o : Node → Ev) : String := showStepOn allNodes o
+
+def digestOn (nodes : List Node) (epochs : List Nat) (s : St) : String :=
   let ts (f : Loc → Option Nat) := ",".intercalate (sortS (nodes.filterMap fun n => (f (s.loc n)).map fun t => s!"{letterOf n}@{t}"))
   let ep (f : Loc → Option Nat) := ",".intercalate (sortS (nodes.filterMap fun n => (f (s.loc n)).map fun e => s!"{letterOf n}{e}"))
-  let eps (f : Epoch → Bool) := String.join ((List.range 10).filterMap fun e => if f e then some (toString e) else none)
+  let eps (f : Epoch → Bool) := String.join (epochs.filterMap fun e => if f e then some (toString e) else none)
   let ns (f : Loc → Bool) := String.join (sortS (nodes.filterMap fun n => if f (s.loc n) then some (letterOf n) else none))
   s!"jt={ts (·.joinTs)};lt={ts (·.leftTs)};je={ep (·.joinEp)};le={ep (·.leftEp)};jl={s.g.joinLatest};ll={s.g.leftLatest};ss={eps s.g.startSeen};cs={eps s.g.completeSeen};jf={ns (·.joinF)};lf={ns (·.leftF)}"
 
+def digest (s : St) : String := digestOn allNodes (List.range 10) s
+
+/-! ### exhaustive enumeration (`enum <L> <prefix…>`): the model is persistent, so all histories of
+length ≤ L are visited by one depth-first walk; every visited history contributes
+FNV-1a64(history TAB output) to an order-independent sum, exactly as the harness does. -/
+
+def enumTokens : List String := ["la1", "la2", "lb1", "lb2", "SL1a", "C1", "SL2a", "C2", "oa", "ob", "ja", "jb", "SJ1a", "SJ2a"]
+def enumNodes : List Node := [0, 1, 2]
+def enumEpochs : List Nat := [0, 1, 2]
+
+def fnv1a64 (s : String) : UInt64 :=
+  s.toUTF8.foldl (fun h b => (h ^^^ b.toUInt64) * 1099511628211) 14695981039346656037
+
+/-- make the per-node state strict on the nodes the enumeration uses (the model's `step` wraps the
+    previous state in a closure; without this every lookup would replay the whole history) -/
+def freeze (s : St) : St :=
+  let l0 := s.loc 0
+  let l1 := s.loc 1
+  let l2 := s.loc 2
+  let ss0 := s.g.startSeen 0; let ss1 := s.g.startSeen 1; let ss2 := s.g.startSeen 2
+  let cs0 := s.g.completeSeen 0; let cs1 := s.g.completeSeen 1; let cs2 := s.g.completeSeen 2
+  { g := { s.g with startSeen := fun e => if e = 0 then ss0 else if e = 1 then ss1 else if e = 2 then ss2 else false,
+                    completeSeen := fun e => if e = 0 then cs0 else if e = 1 then cs1 else if e = 2 then cs2 else false },
+    loc := fun n => if n = 0 then l0 else if n = 1 then l1 else if n = 2 then l2 else Loc.init }
+
+structure EnumAcc where
+  n : Nat
+  h : UInt64
+
+def contribute (acc : EnumAcc) (hs ss : String) (s : St) : EnumAcc :=
+  ⟨acc.n + 1, acc.h + fnv1a64 (hs ++ "\t" ++ ss ++ " | " ++ digestOn enumNodes enumEpochs s)⟩
+
+/-- visit the history `hs` (state `s`, `k` ops, step outputs `ss`) and all its extensions of at
+    most `depth` more ops -/
+def enumWalk (al : List (String × Op)) : Nat → St → Nat → String → String → EnumAcc → EnumAcc
+  | depth, s, k, hs, ss, acc =>
+    let acc := contribute acc hs ss s
+    match depth with
+    | 0 => acc
+    | d + 1 =>
+      al.foldl (fun acc (tok, op) =>
+        let r := step s (k + 1) op
+        let s' := freeze r.1
+        enumWalk al d s' (k + 1) (hs ++ " " ++ tok) (ss ++ " " ++ showStepOn enumNodes r.2) acc) acc
+
+def hex16 (x : UInt64) : String :=
+  let ds := (Nat.toDigits 16 x.toNat)
+  String.ofList (List.replicate (16 - ds.length) '0' ++ ds)
+
+def enumModel (maxLen : Nat) (prefixToks : List String) : String :=
+  match prefixToks.mapM parseOp, enumTokens.mapM parseOp with
+  | some pre, some alOps =>
+    if pre.length > maxLen ∨ maxLen > 8 then "bad-case" else
+    let al := enumTokens.zip alOps
+    -- run the prefix
+    let (s, k, hs, ss) := (prefixToks.zip pre).foldl
+      (fun (st : St × Nat × String × String) (tok, op) =>
+        let (s, k, hs, ss) := st
+        let r := step s (k + 1) op
+        (freeze r.1, k + 1, (if k = 0 then tok else hs ++ " " ++ tok),
+         (if k = 0 then showStepOn enumNodes r.2 else ss ++ " " ++ showStepOn enumNodes r.2)))
+      (init, 0, "", "")
+    let acc : EnumAcc :=
+      if k = 0 then
+        -- no prefix: the empty history is not a case; start from its one-op extensions
+        al.foldl (fun acc (tok, op) =>
+          let r := step init 1 op
+          enumWalk al (maxLen - 1) (freeze r.1) 1 tok (showStepOn enumNodes r.2) acc) ⟨0, 0⟩
+      else enumWalk al (maxLen - k) s k hs ss ⟨0, 0⟩
+    s!"n={acc.n} h={hex16 acc.h}"
+  | _, _ => "bad-case"
+
 def model (line : String) : String :=
+  match words line with
+  | "enum" :: l :: pre =>
+    match l.toNat? with
+    | some l => enumModel l pre
+    | none => "bad-case"
+  | _ =>
   match parseHist line with
   | none => "bad-case"
   | some h =>
